@@ -4,6 +4,9 @@ use serde_json::Value;
 pub mod c01;
 pub mod c02;
 pub mod c04;
+pub mod c05;
+pub mod c07;
+pub mod c08;
 pub mod c11;
 pub mod c13;
 pub mod baton_selftest;
@@ -34,6 +37,9 @@ pub fn run(id: &str, run: &mut Run) {
         "C01" => c01::run(run),
         "C02" => c02::run(run),
         "C04" => c04::run(run),
+        "C05" => c05::run(run),
+        "C07" => c07::run(run),
+        "C08" => c08::run(run),
         "C11" => c11::run(run),
         "C13" => c13::run(run),
         "C20" => c20::run(run),
@@ -67,6 +73,9 @@ pub fn replay(id: &str, case: &Value, run: &mut Run) {
         "C01" => c01::replay(case, run),
         "C02" => c02::replay(case, run),
         "C04" => c04::replay(case, run),
+        "C05" => c05::replay(case, run),
+        "C07" => c07::replay(case, run),
+        "C08" => c08::replay(case, run),
         "C11" => c11::replay(case, run),
         "C13" => c13::replay(case, run),
         "C20" => c20::replay(case, run),
@@ -98,6 +107,9 @@ pub fn replay(id: &str, case: &Value, run: &mut Run) {
 pub fn child(id: &str, args: &[String]) {
     match id {
         "C01" => c01::child(args),
+        "C05" => c05::child(args),
+        "C07" => c07::child(args),
+        "C08" => c08::child(args),
         "C11" => c11::child(args),
         "C13" => c13::child(args),
         "C04" => c04::child(args),
